@@ -375,15 +375,24 @@ class ComposedNode(ConfigNode):
         ret['implicit_delete'] = notnone_or(self._delete, self._default_delete or self._implicit_delete)
         ret['implicit_allow_new'] = notnone_or(self._allow_new, self._implicit_allow_new)
         if child is None or getattr(child, '_implicit_safe') is not False: # do not set "implicit_safe" arg if the child exists and already has it set to False (note: I think it's not strictly necessary to handle it here since other checks would still prevent changes)
-            ret['implicit_safe'] = notnone_or(self._safe, self._implicit_safe)
+            ret['implicit_safe'] = self._get_inherited_safe()
         return ret
+
+    def _get_inherited_safe(self):
+        ''' Safety handed down to children: unsafe if this node is unsafe for any reason (its own flag or an
+            inherited one - an explicit ``safe=True`` cannot make the content of an unsafe ancestor safe again),
+            otherwise whatever is known. '''
+        if self._safe is False or self._implicit_safe is False:
+            return False
+        return notnone_or(self._safe, self._implicit_safe)
 
     def _propagate_implicit_values(self):
         if not hasattr(self, '_delete'): # happens when unpickling! children are being populated before attributes are set, but its ok since we assume pickled objects are ok anyway, so no need to fix things
             return
-        if self._implicit_delete is None and self._implicit_allow_new is None and self._implicit_safe is None:
+        inherited_safe = self._get_inherited_safe() # the same as in _get_child_kwargs
+        if self._implicit_delete is None and self._implicit_allow_new is None and inherited_safe is None:
             return
-        if self._delete is not None and self._allow_new is not None and self._safe is not None:
+        if self._delete is not None and self._allow_new is not None and inherited_safe is None:
             return
 
         inherited_delete = self._default_delete or self._implicit_delete # the same as in _get_child_kwargs
@@ -397,11 +406,10 @@ class ComposedNode(ConfigNode):
                 if child._implicit_allow_new != self._implicit_allow_new:
                     child._implicit_allow_new = self._implicit_allow_new
                     fix = True
-            if self._safe is None:
-                if child._implicit_safe != self._implicit_safe:
-                    if child._implicit_safe is not False:
-                        child._implicit_safe = self._implicit_safe
-                        fix = True
+            if child._implicit_safe != inherited_safe:
+                if child._implicit_safe is not False:
+                    child._implicit_safe = inherited_safe
+                    fix = True
 
             if fix:
                 child._propagate_implicit_values()
